@@ -21,27 +21,27 @@ PROPS = {
     },
     "C14": {
         "level": "proof",
-        "verus": ["schema_rules", "types", "impl_args"],
+        "verus": ["schema_rules", "types", "impl_args", "subtype"],
         "explanation": "KERNEL ONLY: three of the type-system validation rules, decided against the specification text rather than against a reference implementation. Verus proves for every input that "
                        "validate_type_system_name reports exactly the names that start with `__` outside the built-in file (rule 'Reserved Names'), and that validate_implementation_field_types reports exactly the "
                        "interface fields whose implementing field type is not a valid implementation type (rule IsValidImplementationFieldType over the schema's subtype relation, any nesting of list / non-null), "
                        "once each and in order. Unit impl_args: validate_implementation_field_arguments appends exactly the reports IsValidImplementation 2.c / 2.d owe, in order -- an interface field argument missing on the implementing field, "
                        "present with a type that is not THE SAME type (invariant: `ID!` vs `ID` is reported), an additional argument that is required (non-null without default) -- for every schema, implementor and list of interfaces. "
                        "Bodies are re-extracted from /repo on every run.",
-        "assumptions": ["IndexMap / IndexSet / HashMap / HashSet shims; Schema::is_subtype is the schema's subtype relation; `.iter().find / any` by name are first-match searches; derived PartialEq of ast::Type is structural equality"],
+        "assumptions": ["IndexMap / IndexSet / HashMap / HashSet shims; Schema::is_subtype's relation is proved in unit subtype; `.iter().find / any` by name are first-match searches; derived PartialEq of ast::Type is structural equality"],
         "not_decided": ["the property as stated: agreement of the WHOLE of schema validation with the reference implementation (graphql-js via graphql-core) -- every other rule (root operation types, field / argument / "
                         "directive definitions, unions, enums, input objects, transitive interfaces, input-object cycles) and the documented differences; no oracle exists inside a contract"],
     },
     "C15": {
         "level": "proof",
-        "verus": ["schema_rules", "types", "impl_args"],
+        "verus": ["schema_rules", "types", "impl_args", "subtype"],
         "explanation": "KERNEL ONLY: five of the mechanisms behind 'acceptance implies these invariants'. Verus proves for every input: validate_type_system_name reports a name exactly when it starts with `__` and "
                        "is not located in the built-in file (Reserved Names); BuiltInScalars::record_type_ref says whether a name is a built-in scalar and records it as used-and-defined / used-and-undefined "
                        "according to the schema's type map, all_used compares the counts (the bookkeeping that decides which built-in scalars stay in a valid schema's type map); validate_implementation_field_types "
                        "reports exactly one diagnostic, in order, for every implemented-interface field whose type the implementor's field does not satisfy (IsValidImplementationFieldType), none skipped; validate_implementation_field_arguments (unit impl_args) does the same for the argument contract (missing argument, argument of a different type, additional required argument). "
                        "validate_schema itself: its effect on the type map is `types_after` -- every definition stays except built-in scalar definitions nothing refers to; a built-in scalar that is referred to but not defined is inserted "
                        "as the table's definition -- including that the `all_used` shortcut is harmless (set cardinalities) and that every used-and-undefined name is inserted.",
-        "assumptions": ["HashMap / HashSet / IndexMap / IndexSet behave as maps / sets / sequences keyed by the name's text (shims); retain keeps exactly the entries its closure accepts", "Schema::is_subtype is the schema's subtype relation",
+        "assumptions": ["HashMap / HashSet / IndexMap / IndexSet behave as maps / sets / sequences keyed by the name's text (shims); retain keeps exactly the entries its closure accepts", "Schema::is_subtype's relation is no longer assumed (unit subtype)",
                         "the per-definition validators called by validate_schema are opaque; assumed of each: it calls record_type_ref for exactly the type references of the definition it is given, and leaves the table alone"],
         "not_decided": ["the property's main clause: that ACCEPTANCE by the whole of validate_schema implies every listed invariant (root types, referenced types exist with the right kind, argument contracts, "
                         "transitive interfaces, input-object cycles): would need contracts on every validator"],
@@ -127,17 +127,17 @@ PROPS = {
     },
     "C29": {
         "level": "proof",
-        "verus": ["types"],
+        "verus": ["types", "subtype"],
         "explanation": "Verus proves, for every Type value of any nesting, that Type::is_assignable_to == AreTypesCompatible, "
                        "is_variable_usage_allowed == IsVariableUsageAllowed (incl. null default) and "
-                       "is_valid_implementation_field_type == IsValidImplementationFieldType over the relation computed by Schema::is_subtype; "
+                       "is_valid_implementation_field_type == IsValidImplementationFieldType over the relation computed by Schema::is_subtype, and (unit subtype) that this relation IS the spec's: the abstract type is a union with that member, "
+                       "or an interface that the (defined, object or interface) type declares it implements; "
                        "and for the two call sites: validate_variable_usage reports (one diagnostic, Err) exactly when the argument is a variable that is defined and whose usage the rule forbids; "
                        "validate_implementation_field_types reports, in order, exactly one diagnostic for every (implemented interface that exists, field of it that the implementor also has) whose types the rule forbids -- "
                        "no pair is skipped or reported twice. Bodies are re-extracted from /repo on every run.",
         "assumptions": ["IndexMap / IndexSet iteration visits the entries in insertion order and `get` finds the first entry with that key (shims FieldMap / NameSet; the for loops are desugared to indexed loops over them)",
                         "Schema::get_interface returns the interface definition with that name, if any"],
-        "not_decided": ["Schema::is_subtype computes the spec's possible-type / declared-implementation relation (IndexMap lookups; assumed)",
-                        "the callers of these two call sites (validate_arguments / validate_object_type_definition ...) pass the right definitions"],
+        "not_decided": ["the callers of these two call sites (validate_arguments / validate_object_type_definition ...) pass the right definitions"],
     },
     "C25": {
         "level": "proof",
